@@ -3,5 +3,5 @@ From M Require Import base.ExtractBase gen.Consts model.Discover model.SrcCache.
 Extraction Language OCaml.
 Extraction "model.ml"
   xb_zadd xb_zmul xb_zdiv xb_zmod xb_zopp xb_zltb xb_nadd xb_nmul xb_ndiv xb_nmod xb_z_of_n xb_n_of_z xb_n_of_nat xb_nat_of_n xb_keep
-  att_cap origin_code try_state outcome discover discover_rounds
+  att_cap origin_code try_state outcome discover discover_rounds same_peer udp_attribute udp_run
   life lookup record plant step run age expired.
